@@ -26,6 +26,7 @@ import (
 )
 
 func TestC10Concurrent(t *testing.T) {
+	defer vt.Watch("TestC10Concurrent", 120*time.Second)()
 	rec := vt.For("C10")
 	rec.Rule("race detector + lost-update check (statistical): 1-3 hosts and 2-6 clients on badger/memory, requests sent over in-process connections and as direct calls; every round all agents send keep-alives, clients also send peer requests and wallets link nodes, all at the same virtual instant from separate goroutines under -race; any race report fails; at quiescence all balances must equal the one-at-a-time model; non-trivial = >=2 concurrent clients; distinct by config")
 	rapid.Check(t, func(rt *rapid.T) {
